@@ -3,7 +3,8 @@
 From Coq Require Import ZArith List Bool Lia Permutation QArith Qcanon.
 Require Export MV.Lib.Base MV.C13.Defs MV.C13.Geom MV.C13.Gen MV.C13.Model MV.C13.Run.
 Require Export MV.C13.Proofs_Base MV.C13.Proofs_Counts MV.C13.Proofs_Topo MV.C13.Proofs_Geom MV.C13.Proofs_GeomQ MV.C13.Proofs_GeomF MV.C13.Proofs_GeomV
-               MV.C13.Proofs_Accept MV.C13.Proofs_Accept2 MV.C13.Proofs_Vol MV.C13.Proofs_Arg MV.C13.Proofs_Manifold MV.C13.Proofs_Manifold2 MV.C13.Proofs_Euler.
+               MV.C13.Proofs_Accept MV.C13.Proofs_Accept2 MV.C13.Proofs_Vol MV.C13.Proofs_Arg MV.C13.Proofs_Manifold MV.C13.Proofs_Manifold2 MV.C13.Proofs_Euler
+               MV.C13.Proofs_Border MV.C13.Proofs_Comp MV.C13.Proofs_SD MV.C13.Proofs_Tri MV.C13.Proofs_VolTopo.
 Import ListNotations.
 Open Scope Z_scope.
 
@@ -128,3 +129,20 @@ Proof.
 Qed.
 Example ex_square_cut_free : ~ In (1, 3) (dedges_all (rf ex_square)) /\ ~ In (3, 1) (dedges_all (rf ex_square)).
 Proof. change (rf ex_square) with ex_square_F. cbn. intuition congruence. Qed.
+
+(* the guard of the whole-loop triangulate theorem holds for the quad-with-a-triangle example *)
+Example ex_square_cuts_free : cuts_free (rf ex_square).
+Proof.
+  change (rf ex_square) with ex_square_F. unfold ex_square_F. split.
+  - intros i A B C D H. apply getz_Ok in H as [Hi H]. unfold Zlen in Hi. cbn [length] in Hi.
+    assert (i = 0 \/ i = 1) as [-> | ->] by lia; cbn in H; inversion H; subst. cbn. intuition congruence.
+  - intros i j A B C D A' B' C' D' Hne H H'. apply getz_Ok in H as [Hi H]. apply getz_Ok in H' as [Hj H']. unfold Zlen in Hi, Hj. cbn [length] in Hi, Hj.
+    assert (i = 0 \/ i = 1) as [-> | ->] by lia; assert (j = 0 \/ j = 1) as [-> | ->] by lia; cbn in H, H'; try lia; discriminate.
+Qed.
+(* the tetrahedron boundary has no border edge; the single triangle has three *)
+Example ex_border : is_border (dedges_all w_tri_F) (0, 1) /\ forall e, ~ is_border (dedges_all ex_tet_F) e.
+Proof.
+  split.
+  - split; [cbn; auto|]. unfold swap. cbn. intros H. repeat (destruct H as [H|H]; [discriminate|]). contradiction.
+  - intros e [H Hn]. apply Hn. cbn in H. repeat (destruct H as [H|H]; [subst e; unfold swap; cbn; tauto|]). contradiction.
+Qed.
